@@ -10,6 +10,7 @@ import (
 	"log/slog"
 	"os"
 	"runtime"
+	"strings"
 	"testing/synctest"
 
 	"github.com/gordian-engine/gordian/gassert/gasserttest"
@@ -152,6 +153,8 @@ type stores struct {
 }
 
 type sys struct {
+	// cancelAt > 0: the next handler call's context is cancelled at that kernel round-trip point (CANCEL event)
+	cancelAt int
 	// destination views of VotingView/CommittingView polls, reused across polls
 	pollV, pollC tmconsensus.VersionedRoundView
 	w  *world
@@ -392,8 +395,23 @@ func (s *sys) call(name string, f func(ctx context.Context) string) string {
 	// a call that makes more than maxHandlerPoints of them without returning is spinning.
 	points := 0
 	spinning := ""
-	ctx := gchan.WithVerifHook(s.ctx, func(op, label string) {
+	base := s.ctx
+	cancelAt := 0
+	if strings.HasPrefix(name, "Handle") {
+		cancelAt, s.cancelAt = s.cancelAt, 0
+	}
+	var cancelCaller context.CancelFunc
+	if cancelAt > 0 {
+		// The caller gives up (its per-message context is cancelled, e.g. a p2p validation timeout) when its
+		// handler reaches its cancelAt-th kernel round-trip point.
+		base, cancelCaller = context.WithCancel(s.ctx)
+		defer cancelCaller()
+	}
+	ctx := gchan.WithVerifHook(base, func(op, label string) {
 		points++
+		if points == cancelAt {
+			cancelCaller()
+		}
 		if points > maxHandlerPoints {
 			spinning = label
 			runtime.Goexit()
